@@ -1,9 +1,13 @@
 #!/usr/bin/env python3
-"""mkmutprompt.py <Cxx> [n] [tag]: print the prompt for a fresh mutation agent (property text only, nothing from /verif)."""
-import json, os, sys
+"""mkmutprompt.py <Cxx> [n] [tag] [--avoid]: print the prompt for a fresh mutation agent (property text only, nothing from /verif's
+checks).  With --avoid the prompt also lists the sites earlier engineers already used for this property (from seeded/*/meta.json
+'what', which is the mutation author's own description), so that a new batch brings new mechanisms."""
+import glob, json, os, sys
 HERE = os.path.dirname(os.path.dirname(os.path.abspath(__file__)))
-pid = sys.argv[1].upper(); n = int(sys.argv[2]) if len(sys.argv) > 2 else 3
-tag = sys.argv[3] if len(sys.argv) > 3 else pid
+args = [a for a in sys.argv[1:] if a != "--avoid"]
+avoid = "--avoid" in sys.argv
+pid = args[0].upper(); n = int(args[1]) if len(args) > 1 else 3
+tag = args[2] if len(args) > 2 else pid
 for l in open(os.path.join(HERE, "properties.jsonl")):
     p = json.loads(l)
     if p["id"] == pid:
@@ -13,4 +17,16 @@ else:
 t = open(os.path.join(HERE, "tools", "mut_prompt_template.txt")).read()
 s = t.format(pid=tag, title=p["title"], statement=p["statement"], qtext=p["quantifier"]["text"], n=n,
              files=", ".join(p["anchors"]["files"]))
-print(s.replace("({tag} — ".format(tag=tag), "({pid} — ".format(pid=pid)))
+s = s.replace("({tag} — ".format(tag=tag), "({pid} — ".format(pid=pid))
+if avoid:
+    taken = []
+    for d in sorted(glob.glob(os.path.join(HERE, "seeded", "*", "meta.json"))):
+        m = json.load(open(d))
+        if str(m.get("property", "")).upper().startswith(pid) or os.path.basename(os.path.dirname(d)).startswith(pid + "_"):
+            w = " ".join(str(m.get("what", "")).split())
+            taken.append("- " + w[:260])
+    if taken:
+        s = s.replace("HOW TO WORK:", "ALREADY TAKEN — other engineers have delivered the following changes for this property; yours must use DIFFERENT "
+                      "functions/mechanisms (look at other files and code paths the property covers, other operand kinds, other configurations):\n"
+                      + "\n".join(taken) + "\n\nHOW TO WORK:")
+print(s)
